@@ -50,7 +50,7 @@ from docutils.writers import Writer
 from docutils.parsers.rst.directives.admonitions import BaseAdmonition # type: ignore[import-untyped]
 from docutils.readers.standalone import Reader as StandaloneReader
 from docutils.utils import Reporter
-from docutils.parsers.rst import Directive, directives
+from docutils.parsers.rst import Directive, directives, roles
 from docutils.transforms import Transform, frontmatter
 
 from pydoctor.epydoc.markup import Field, ParseError, ParsedDocstring, ParserFunction
@@ -100,10 +100,15 @@ def parse_docstring(docstring: str,
         r"(:py)?:(mod|func|data|const|class|meth|attr|exc|obj):", "", docstring
     )
 
-    publish_string(docstring, writer=writer, reader=reader,
-                   settings_overrides={'report_level':10000,
-                                       'halt_level':10000,
-                                       'warning_stream':None})
+    try:
+        publish_string(docstring, writer=writer, reader=reader,
+                       settings_overrides={'report_level':10000,
+                                           'halt_level':10000,
+                                           'warning_stream':None})
+    finally:
+        # docutils keeps the role set by a "default-role" directive in a process-wide table and
+        # only resets it at the end of a successful parse: don't let it leak into the next docstrings.
+        roles._roles.pop('', None)
 
     document = writer.document
     visitor = _SplitFieldsTranslator(document, errors)
